@@ -488,6 +488,10 @@ func checkC13(p *Prog, r *Report) {
 	if f := p.Fn("udpMuxedConn.abortWrite"); r.Anchor("udpMuxedConn.abortWrite", f != nil) {
 		r.Check(len(p.CallsTo(f, false, "ice.UDPMuxDefault.abortWrite")) == 1, "muxed connection forwards the abort to the mux", p.Pos(f.Body.Pos()), "Mux.abortWrite()", "the muxed connection's abortWrite does not reach the mux")
 	}
+
+	// ---- R13.6 exhaustive clean-up / migration loops ----
+	r.Rule("R13.6", "The loops that must treat every element of a collection do so: no early exit, and no path through an iteration that skips the operation (mux close and packet-connection close reach every element).", 3)
+	checkForAllLoops(p, r, "C13")
 }
 
 // abortOnlyGuardedByAssertion: the only branch conditions dominating call are
